@@ -3,8 +3,14 @@ import PyrollProofs.ProcLemmas
 /-!
 # C18 — pre- and post-processors run in hierarchy order and affect only what they should
 
-Model: `PyrollModel/Proc.lean` (tied to `pyroll/core/unit/unit.py` by the correspondence harness
-`driver/props/c18.py`).  Only property theorems live here; helper lemmas are in `PyrollProofs/ProcLemmas.lean`.
+Model: `PyrollModel/Proc.lean`, tied to `pyroll/core/unit/unit.py` and `pyroll/core/roll_pass/base.py`
+(T) by `driver/translate/c18_procs.py`, which re-reads the class attributes, `__init_subclass__`, the two walks,
+`init_solve`, `solve`, `_solve_subunits` and the library's own registrations on every run and writes them as programs
+over a small instruction set (`PyrollModel/Gen/C18.lean`, interpreter `PyrollModel/ProcProg.lean`): section 10
+"What the source says" proves that running the generated programs equals the hand-written `defClass`, `walk`, `chain`,
+`initSolve`, `solveSubs`, `iterate`, `solveLeaf`, `solveSeq`, and
+(K) by the correspondence harness `driver/props/c18.py`.  Only property theorems live here; helper lemmas are in
+`PyrollProofs/ProcLemmas.lean`.
 
 `walk H w c` is THE CODE (`_yield_pre_processors` for `w = true`, `_yield_post_processors` for `w = false`, of an
 instance of class `c`), `ownList H w k` the list the class `k` holds itself, `chain` the processor loop,
@@ -343,34 +349,60 @@ theorem in_profile_is_last_pre_output (E : Env) (st : RState) (u inp : Nat) (hin
     rw [initSolve_marks, initSolve_marks]
     simp only [if_true]
     show _ = if (preChain E st u inp).2.1 = _ then _ else _
-    rw [if_neg h1, if_neg (fun h => h2 h.1)]
+    rw [if_neg h1]
+    split <;> rfl
 
-/-- `out_profile` is created on the first solve (a new object with the same marks) and kept afterwards; the
-pre-processors reach no other unit's profiles and no object that existed before except the profile handed in -/
+/-- **`init_solve` writes only to the unit's own incoming and outgoing profile.**  First solve: `out_profile` is a
+new object with the marks of the last pre-processor's output.  Re-solve: the SAME `out_profile` object is re-used and
+brought up to date - it carries the marks of the last pre-processor's output of THIS solve (what the previous solve
+left on it is replaced).  No other unit's profiles change; of the objects that existed before, only the handed-in
+profile (in-place pre-processors) and the own `out_profile` can differ afterwards; and `init_solve`'s own writes
+(everything after the pre-processor chain) touch no object the chain left behind except the own `out_profile`: the
+caller's profile and the pre-processors' outputs are as the chain left them -/
 theorem init_solve_touches_only_its_input (E : Env) (st : RState) (u inp : Nat) (hin : inp < st.heap.n) :
-    (∀ o, st.uout u = some o → (initSolve E st u inp).1.uout u = some o) ∧
+    (∀ o, st.uout u = some o → (initSolve E st u inp).1.uout u = some o ∧
+        (initSolve E st u inp).1.heap.marks o =
+          (initSolve E st u inp).1.heap.marks (lastRet inp (initSolve E st u inp).2)) ∧
     (st.uout u = none → ∃ op, (initSolve E st u inp).1.uout u = some op ∧ st.heap.n ≤ op ∧
         (initSolve E st u inp).1.heap.marks op =
           (initSolve E st u inp).1.heap.marks (lastRet inp (initSolve E st u inp).2)) ∧
     (∀ x, x ≠ u → (initSolve E st u inp).1.uin x = st.uin x ∧ (initSolve E st u inp).1.uout x = st.uout x) ∧
-    (∀ o, o < st.heap.n → o ≠ inp → (initSolve E st u inp).1.heap.marks o = st.heap.marks o) := by
+    (∀ o, o < st.heap.n → o ≠ inp → st.uout u ≠ some o →
+        (initSolve E st u inp).1.heap.marks o = st.heap.marks o) ∧
+    (∀ o, o < (preChain E st u inp).1.n → st.uout u ≠ some o →
+        (initSolve E st u inp).1.heap.marks o = (preChain E st u inp).1.marks o) := by
   obtain ⟨a1, a2, _, a4⟩ := chain_frame E true u (walk E.H true (E.ucls u)) st.heap inp hin
   have hlt : (preChain E st u inp).2.1 < (preChain E st u inp).1.n := a2
-  refine ⟨?_, ?_, ?_, ?_⟩
-  · intro o ho; rw [initSolve_uout]; simp [ho]
+  have hl : (preChain E st u inp).2.1 = lastRet inp (preChain E st u inp).2.2 := chain_lastRet _ _ _ _ _ _
+  have hcur : (initSolve E st u inp).1.heap.marks (preChain E st u inp).2.1 =
+      (preChain E st u inp).1.marks (preChain E st u inp).2.1 := by
+    rw [initSolve_marks, if_neg (Nat.ne_of_lt hlt)]
+    split <;> rfl
+  refine ⟨?_, ?_, ?_, ?_, ?_⟩
+  · intro o ho
+    refine ⟨by rw [initSolve_uout]; simp [ho], ?_⟩
+    rw [initSolve_evs, ← hl, hcur, initSolve_marks]
+    split
+    · rfl
+    · simp [ho]
   · intro hn
     refine ⟨(preChain E st u inp).1.n + 1, ?_, Nat.le_succ_of_le a1, ?_⟩
     · rw [initSolve_uout]; simp [hn]
-    · have hl : (preChain E st u inp).2.1 = lastRet inp (preChain E st u inp).2.2 := chain_lastRet _ _ _ _ _ _
-      rw [initSolve_evs, ← hl, initSolve_marks, initSolve_marks]
-      show _ = if (preChain E st u inp).2.1 = _ then _ else _
-      rw [if_neg (Nat.ne_of_lt hlt), if_neg (fun h => by omega)]
+    · rw [initSolve_evs, ← hl, hcur, initSolve_marks]
       simp [hn]
   · intro x hx; rw [initSolve_uin, initSolve_uout]; simp [hx]
-  · intro o ho hne
+  · intro o ho hne hno
     have hle : st.heap.n ≤ (preChain E st u inp).1.n := a1
-    rw [initSolve_marks, if_neg (by omega), if_neg (fun h => by omega)]
+    rw [initSolve_marks, if_neg (by omega), if_neg (fun h => by
+      rcases h with h | h
+      · omega
+      · exact hno h)]
     exact a4 o ho hne
+  · intro o ho hno
+    rw [initSolve_marks, if_neg (by omega), if_neg (fun h => by
+      rcases h with h | h
+      · omega
+      · exact hno h)]
 
 /-! ## 6. Solving: the post-processors -/
 
@@ -609,6 +641,20 @@ example : procsRun (solveLeaf exE exSt 0 0).2.2 = [110, 111, 116, 113, 114] ∧
     procsRun (solveLeaf exE' (solveLeaf exE exSt 0 0).1 0 0).2.2 = [110, 112, 116, 113, 115] ∧
     consults (solveLeaf exE' (solveLeaf exE exSt 0 0).1 0 0).2.2 = [10, 11, 12, 16, 13, 14, 15] := by decide
 
+/-- `init_solve_touches_only_its_input` on a RE-SOLVE: the state unit 0 (class `D`) was left in by a solve under `exE`
+(`out_profile` = object 3 carrying the marks 110, 111, 116 and the own mark), solved again under `exE'` on profile 0
+(which the in-place processor 110 marked at the first solve): `out_profile` is still object 3, `in_profile` a new
+object (5), and object 3 now carries exactly what the last pre-processor returned at THIS solve - the marks of the
+earlier solve (111, own 0) are gone -/
+def exSt1 : RState := (solveLeaf exE exSt 0 0).1
+
+example : exSt1.uout 0 = some 3 ∧ 0 < exSt1.heap.n ∧
+    exSt1.heap.marks 3 = [.proc 110, .proc 111, .proc 116, .own 0] := by decide
+example : (initSolve exE' exSt1 0 0).1.uout 0 = some 3 ∧ (initSolve exE' exSt1 0 0).1.uin 0 = some 5 ∧
+    lastRet 0 (initSolve exE' exSt1 0 0).2 = 0 ∧
+    (initSolve exE' exSt1 0 0).1.heap.marks 3 = [.proc 110, .proc 110, .proc 112, .proc 116] ∧
+    (initSolve exE' exSt1 0 0).1.heap.marks 0 = [.proc 110, .proc 110, .proc 112, .proc 116] := by decide
+
 /-- `registration_between_base_and_subclass` on the library's hierarchy: `K(TwoRollPass)`=11, `L(K)`=12 defined after
 the library classes; registrations on `TwoRollPass`, `DeformationUnit`, `Unit`, `BaseRollPass` (after the library's
 own 900), `DiskElementUnit`, `L`.  The history is cooperative, so `OwnLists` holds for `L`; `BaseRollPass` (=6) stands
@@ -633,5 +679,332 @@ two iterations -/
 example : consults (solveSeq exE exSt 2 [0, 1] 2 0).2.2 =
     [10, 11, 12, 13,  10, 11, 12, 16, 13, 14, 15,  10, 11, 12, 16, 14,
      10, 11, 12, 16, 13, 14, 15,  10, 11, 12, 16, 14,  14, 15] := by decide
+
+/-! ## 10. What the source says (tie T)
+
+`Gen.C18` holds the statements of the code the property is about, as read from the current source
+(`driver/translate/c18_procs.py`).  The theorems of this section run those programs (`PyrollModel/ProcProg.lean`:
+what one instruction does) and prove - for EVERY class table, registration state, environment of factories, unit,
+heap and profile, by unfolding - that the result is what the hand-written model does.  So the theorems of sections
+1-8, which speak of `defClass`, `walk`, `chain`, `initSolve`, `finishSolve`, `solveLeaf`, `solveSubs`, `iterate`,
+`solveSeq`, are theorems about what the source says; a source change that alters a program either leaves these
+proofs intact (nothing observable changed) or makes this file stop building (broken tie).
+
+CONSUMED (general proof): the class attributes of `Unit`'s body and `Unit.__init_subclass__`
+(`defClass_program_refines_defClass`), `_yield_pre_processors` / `_yield_post_processors`
+(`walk_program_refines_walk`), the two factory loops (`pre_loop_/post_loop_program_refines_chain`), `init_solve`
+(`init_solve_program_refines_initSolve`, including the re-use branch for an existing out profile: what it does to a
+public non-root entry that both profiles hold - the marks - is computed from the literals of its delete and set
+conditions), `_solve_subunits` (`members_/solve_subunits_program_refines_solveSubs`), the
+solution loop (`solution_loop_program_refines_iterate`), `solve` as a whole (`solve_/leaf_/seq_program_refines_…`).
+PINNED (`decide`d equality, `library_as_modelled`): which unit classes of pyroll/core override one of the watched
+names (today: two `init_solve` overrides, pinned statement by statement - both call `super().init_solve` first and
+then touch neither processors nor the profile objects' identity), every other statement of pyroll/core that
+mentions the lists / walk methods (today: the one registration in roll_pass/base.py), that registration itself, the
+initial `None` of `in_profile` / `out_profile`, and that the class table `libOps` used in sections 8 and 9 is the
+one the `class` statements give. -/
+
+section Source
+open Gen.C18
+set_option linter.unusedSimpArgs false
+
+/-! ### classes and the walk -/
+
+/-- `class C(…)` as the source has it (the body of `Unit` with its two attributes, `Unit.__init_subclass__` run for
+every class whose `__init_subclass__` chain reaches it) is the model's `defClass`, for every hierarchy, MRO tail,
+kind of `__init_subclass__` and for `Unit` itself (`body`) -/
+theorem defClass_program_refines_defClass (H : Hier) (tail : List Nat) (isub : InitSub) (body : Bool) :
+    runDefClass Gen.C18.unit_body Gen.C18.init_subclass H tail isub body = some (defClass H tail isub body) := by
+  simp only [runDefClass, Gen.C18.unit_body, Gen.C18.init_subclass, translated, assigns, defClass]
+  simp only [Bool.and_self, if_true, Option.some.injEq]
+  congr 1
+  funext w k
+  cases w <;> simp
+
+/-- a subclass of `Unit` defined after registrations on its base gets two NEW empty lists -/
+example : ((runDefClass Gen.C18.unit_body Gen.C18.init_subclass (run init (exOps.take 11)) [2, 1, 0, 4] .absent false).map
+    (fun H => (H.lists true 5, H.lists false 5, H.lists true 2))) = some (some [], some [], some [13]) := by decide
+/-- without `__init_subclass__` (lists shared with the base class) the program does NOT refine the model -/
+example : ((runDefClass Gen.C18.unit_body { defined := false, body := [] } (run init (exOps.take 11)) [2, 1, 0, 4]
+    .absent false).map (fun H => H.lists true 5)) ≠
+    some ((defClass (run init (exOps.take 11)) [2, 1, 0, 4] .absent false).lists true 5) := by decide
+
+/-- `_yield_pre_processors` (`w = true`) / `_yield_post_processors` as the source has them yield exactly the model's
+`walk`, for every hierarchy and class -/
+theorem walk_program_refines_walk (H : Hier) (w : Bool) (c : Nat) :
+    srcProgs.walk H w c = some (walk H w c) := by
+  cases w
+  · simp only [Progs.walk, srcProgs, runWalk, Gen.C18.yield_post, if_true, walk, Bool.false_eq_true, if_false]
+    apply collect_total
+    intro s
+    simp only [walkStep, Kind.isPre]
+    cases lookup (H.lists false) (H.mro s) <;> rfl
+  · simp only [Progs.walk, srcProgs, runWalk, Gen.C18.yield_pre, if_true, walk]
+    apply collect_total
+    intro s
+    simp only [walkStep, Kind.isPre]
+    cases lookup (H.lists true) (H.mro s) <;> rfl
+
+example : srcProgs.walk exH true 6 = some [10, 11, 12, 16, 13] ∧ srcProgs.walk exH false 5 = some [14, 15] := by decide
+/-- the walk without `reversed`, or reading the list of the other kind, does NOT refine the model -/
+example : runWalk { Gen.C18.yield_pre with order := .mroForward } exH 6 ≠ some (walk exH true 6) ∧
+    runWalk { Gen.C18.yield_pre with kind := .post } exH 6 ≠ some (walk exH true 6) := by decide
+/-- a walk over the classes' own `__dict__` differs where a class has no list of its own (observation O1) -/
+example : runWalk { Gen.C18.yield_pre with lookup := .ownDict } (run init swallowOps) 12 ≠
+    some (walk (run init swallowOps) true 12) := by decide
+
+/-- hence the order theorem speaks about the source: under `OwnLists` the source's walk is the concatenation of the
+classes' own lists along the reversed MRO -/
+theorem source_walk_is_spec (H : Hier) (w : Bool) (c : Nat) (h : OwnLists H w c) :
+    srcProgs.walk H w c = some ((H.mro c).reverse.flatMap (ownList H w)) := by
+  rw [walk_program_refines_walk, walk_eq_spec H w c h]
+
+example : OwnLists exH true 6 := coop_history_ownLists exOps (by decide) true 6 (by decide)
+
+/-! ### the factory loops -/
+
+/-- the loop of `init_solve` (`p = factory(self)`, `None` → `continue`, `in_profile = p.solve(in_profile)`) over ANY
+list of factories is the model's `chain` on the method's profile parameter; nothing else of the frame changes -/
+theorem pre_loop_program_refines_chain (E : Env) (u : Nat) (fs : List Nat) (e : MEnv) :
+    runLoop E true u Gen.C18.pre_loop.body fs e =
+      some ({ e with st := { e.st with heap := (chain E true u fs e.st.heap e.arg).1 },
+                     arg := (chain E true u fs e.st.heap e.arg).2.1 },
+            (chain E true u fs e.st.heap e.arg).2.2) := by
+  induction fs generalizing e with
+  | nil => rfl
+  | cons f fs ih =>
+    simp only [Gen.C18.pre_loop] at ih
+    cases hf : E.fac f u with
+    | none =>
+      simp only [runLoop, Gen.C18.pre_loop, execBody, hf, ih, chain]
+      rfl
+    | some p =>
+      simp only [runLoop, Gen.C18.pre_loop, execBody, hf, ih, chain, MEnv.get, MEnv.setOpt, MEnv.set, MEnv.withHeap]
+      rfl
+
+/-- the loop of `solve` over ANY list of factories is the model's `chain` on the local holding the returned profile -/
+theorem post_loop_program_refines_chain (E : Env) (u : Nat) (fs : List Nat) (e : MEnv) (cur : Nat)
+    (hl : e.loc = some cur) :
+    runLoop E false u Gen.C18.post_loop.body fs e =
+      some ({ e with st := { e.st with heap := (chain E false u fs e.st.heap cur).1 },
+                     loc := some (chain E false u fs e.st.heap cur).2.1 },
+            (chain E false u fs e.st.heap cur).2.2) := by
+  induction fs generalizing e cur with
+  | nil => simp [runLoop, chain, ← hl]
+  | cons f fs ih =>
+    simp only [Gen.C18.post_loop] at ih
+    cases hf : E.fac f u with
+    | none =>
+      simp only [runLoop, Gen.C18.post_loop, execBody, hf, ih _ _ hl, chain]
+      rfl
+    | some p =>
+      simp only [runLoop, Gen.C18.post_loop, execBody, hf, chain, MEnv.get, MEnv.setOpt, MEnv.set, MEnv.withHeap, hl]
+      rw [ih _ (applyProc E.beh e.st.heap p cur).2 rfl]
+      rfl
+
+example : ((runLoop exE true 0 Gen.C18.pre_loop.body [10, 11, 12, 16, 13] { st := exSt, arg := 0 }).map (·.2)) =
+    some [.consult true 10 0, .proc true 110 0 0, .consult true 11 0, .proc true 111 0 1,
+     .consult true 12 0, .consult true 16 0, .proc true 116 1 1, .consult true 13 0, .proc true 113 1 1] := by decide
+example : ({ st := exSt, arg := 0, loc := some 0 } : MEnv).loc = some 0 := rfl
+/-- `break` instead of `continue`, a `None` that is not skipped (python raises), a result that is dropped: none of
+these loops refines the model's chain -/
+example :
+    (runLoop exE true 0 [.callFactory, .ifNone .stop, .logProc, .solve (some .arg) .arg] [11, 12, 16]
+      { st := exSt, arg := 0 }).map (·.2) ≠ some (chain exE true 0 [11, 12, 16] exSt.heap 0).2.2 ∧
+    (runLoop exE true 0 [.callFactory, .logProc, .solve (some .arg) .arg] [11, 12, 16]
+      { st := exSt, arg := 0 }).map (·.2) ≠ some (chain exE true 0 [11, 12, 16] exSt.heap 0).2.2 ∧
+    (runLoop exE true 0 [.callFactory, .ifNone .skip, .logProc, .solve none .arg] [11, 12, 16]
+      { st := exSt, arg := 0 }).map (·.2) ≠ some (chain exE true 0 [11, 12, 16] exSt.heap 0).2.2 := by decide
+
+/-! ### `init_solve` -/
+
+/-- `Unit.init_solve` as the source has it is the model's `initSolve`: the pre-processor chain over the source's walk,
+`InProfile` built from the LAST pre-processor's output, and `OutProfile` built from it at the first solve resp. the
+existing out profile refreshed from it at a re-solve (the re-use branch as read: `Gen.C18.out_refresh`) -/
+theorem init_solve_program_refines_initSolve (E : Env) (st : RState) (u inp : Nat) :
+    runInitSolve srcProgs E u st inp = some (initSolve E st u inp) := by
+  have hw : srcProgs.walk E.H = fun w c => some (walk E.H w c) := by
+    funext w c; exact walk_program_refines_walk E.H w c
+  have hc := pre_loop_program_refines_chain E u (walk E.H true (E.ucls u)) { st := st, arg := inp }
+  simp only [Gen.C18.pre_loop] at hc
+  simp only [runInitSolve, initCallees, hw]
+  simp only [srcProgs, Gen.C18.init_solve, Gen.C18.pre_loop, execS, Kind.isPre]
+  cases ho : st.uout u with
+  | none => simp [hc, MEnv.get, MEnv.set, MEnv.withHeap, initSolve, ho, Heap.alloc]
+  | some o =>
+    simp [hc, MEnv.get, MEnv.set, MEnv.withHeap, initSolve, ho, Heap.alloc, Heap.setMarks, Gen.C18.out_refresh,
+      refreshMarks, litHolds]
+
+example : (runInitSolve srcProgs exE 0 exSt 0).map (fun r => (r.1.uin 0, r.1.uout 0, r.1.heap.marks 2)) =
+    some (some 2, some 3, [.proc 110, .proc 111, .proc 116]) := by decide
+/-- … and on a re-solve (the out profile, object 3, exists) -/
+example : (runInitSolve srcProgs exE' 0 exSt1 0).map (fun r => (r.1.uin 0, r.1.uout 0, r.1.heap.marks 3)) =
+    some (some 5, some 3, [.proc 110, .proc 110, .proc 112, .proc 116]) := by decide
+/-- an `init_solve` that leaves a re-used out profile as it is (no re-use branch), one whose re-use branch hands over
+from a copy of the profile the CALLER handed in (second local), and one whose set loop skips entries
+that are present, do NOT refine the model on a re-solve -/
+example :
+    (execS exE' (initCallees srcProgs exE') 0
+      [.loop Gen.C18.pre_loop, .newIn .arg, .newOut .arg true]
+      { st := exSt1, arg := 0 }).map (fun r => r.1.st.heap.marks 3) ≠ some ((initSolve exE' exSt1 0 0).1.heap.marks 3) ∧
+    (execS exE' (initCallees srcProgs exE') 0
+      [.publicCopy .loc .arg, .loop Gen.C18.pre_loop, .newIn .arg,
+       .newOrRefreshOut .arg { Gen.C18.out_refresh with src := .loc }]
+      { st := exSt1, arg := 0 }).map (fun r => r.1.st.heap.marks 3) ≠ some ((initSolve exE' exSt1 0 0).1.heap.marks 3) ∧
+    (execS exE' (initCallees srcProgs exE') 0
+      [.loop Gen.C18.pre_loop, .newIn .arg, .newOrRefreshOut .arg { Gen.C18.out_refresh with set := [.isPresent false] }]
+      { st := exSt1, arg := 0 }).map (fun r => r.1.st.heap.marks 3) ≠ some ((initSolve exE' exSt1 0 0).1.heap.marks 3) := by
+  decide
+/-- `InProfile` built from the profile the caller handed in (kept in a second local) instead of the last
+pre-processor's output does NOT refine the model -/
+example : (execS exE (initCallees srcProgs exE) 0
+      [.bind .loc .arg, .loop Gen.C18.pre_loop, .newIn .loc, .newOut .arg true]
+      { st := exSt, arg := 0 }).map (fun r => r.1.st.heap.marks 2) ≠
+    some ((initSolve exE exSt 0 0).1.heap.marks 2) := by decide
+
+/-! ### `_solve_subunits`, the solution loop -/
+
+/-- the loop of `_solve_subunits` over ANY list of sub-units, each solved like a leaf, is the model's `solveSubs`:
+every sub-unit receives what its predecessor's `solve` RETURNED -/
+theorem members_program_refines_solveSubs (E : Env) (member : RState → Nat → Nat → Option (RState × Nat × List Ev))
+    (s : Nat) (subs : List Nat) (hm : SolvesLeaves E member subs) (st : RState) (cur : Nat) :
+    runMembers member s Gen.C18.solve_subunits.body subs st cur = some (solveSubs E subs st cur) := by
+  induction subs generalizing st cur with
+  | nil => rfl
+  | cons c cs ih =>
+    have hc := hm c (by simp) st cur
+    have ih' := ih (fun c' h' => hm c' (by simp [h'])) (solveLeaf E st c cur).1 (solveLeaf E st c cur).2.1
+    simp only [Gen.C18.solve_subunits] at ih'
+    simp only [runMembers, execMember, Gen.C18.solve_subunits, uget, hc, ih', solveSubs_cons, if_true]
+    simp
+
+/-- `Unit._solve_subunits` as the source has it: `solveSubs` started on `self.in_profile` -/
+theorem solve_subunits_program_refines_solveSubs (E : Env)
+    (member : RState → Nat → Nat → Option (RState × Nat × List Ev)) (s : Nat) (subs : List Nat)
+    (hm : SolvesLeaves E member subs) (st : RState) :
+    runSubs member Gen.C18.solve_subunits s subs st =
+      some ((solveSubs E subs st ((st.uin s).getD 0)).1, (solveSubs E subs st ((st.uin s).getD 0)).2.2) := by
+  have h := members_program_refines_solveSubs E member s subs hm st ((st.uin s).getD 0)
+  simp only [Gen.C18.solve_subunits] at h
+  simp only [runSubs, Gen.C18.solve_subunits, uget, h, if_true]
+
+/-- the solution loop as the source has it (one call of `_solve_subunits` per round) is the model's `iterate`, for
+every number of rounds -/
+theorem solution_loop_program_refines_iterate (E : Env)
+    (member : RState → Nat → Nat → Option (RState × Nat × List Ev)) (s : Nat) (subs : List Nat)
+    (hm : SolvesLeaves E member subs) (k : Nat) (st : RState) :
+    iterProg s (runSubs member Gen.C18.solve_subunits s subs) Gen.C18.solution_loop k st =
+      some (iterate E s subs k st) := by
+  induction k generalizing st with
+  | zero => rfl
+  | succ k ih =>
+    have ih' := ih (solveSubs E subs st ((st.uin s).getD 0)).1
+    simp only [Gen.C18.solution_loop] at ih'
+    simp only [iterProg, Gen.C18.solution_loop, execL, solve_subunits_program_refines_solveSubs E member s subs hm,
+      ih', iterate_succ]
+    simp
+
+example : SolvesLeaves exE (fun st c x => some (solveLeaf exE st c x)) [0, 1] := fun _ _ _ _ => rfl
+
+/-! ### `solve` -/
+
+/-- `Unit.solve` as the source has it (`init_solve`, solution loop, the returned profile = public copy of
+`self.out_profile`, post-processor loop, `return`) is the model's `solveSeq`, whenever the sub-units are solved like
+leaves -/
+theorem solve_program_refines_solveSeq (E : Env) (member : RState → Nat → Nat → Option (RState × Nat × List Ev))
+    (s : Nat) (subs : List Nat) (hm : SolvesLeaves E member subs) (st : RState) (iters inp : Nat) :
+    runSolveWith member srcProgs E st s subs iters inp = some (solveSeq E st s subs iters inp) := by
+  have hi : runInitSolve srcProgs E s = fun st x => some (initSolve E st s x) := by
+    funext st x; exact init_solve_program_refines_initSolve E st s x
+  have hw : srcProgs.walk E.H = fun w c => some (walk E.H w c) := by
+    funext w c; exact walk_program_refines_walk E.H w c
+  have hit := solution_loop_program_refines_iterate E member s subs hm iters
+  have hc := fun e cur hl => post_loop_program_refines_chain E s (walk E.H false (E.ucls s)) e cur hl
+  simp only [Gen.C18.post_loop] at hc
+  simp only [runSolveWith, hi, hw]
+  simp only [srcProgs, Gen.C18.solve, Gen.C18.post_loop, execS, MEnv.get, hit, Kind.isPre, MEnv.set, MEnv.withHeap]
+  rw [hc _ _ rfl]
+  simp only [MEnv.get, solveSeq, finishSolve, Heap.alloc]
+  simp
+
+/-- `solve` of a unit without sub-units, as the source has it, is the model's `solveLeaf` -/
+theorem leaf_program_refines_solveLeaf (E : Env) (st : RState) (u inp : Nat) :
+    runLeaf srcProgs E st u inp = some (solveLeaf E st u inp) := by
+  rw [solveLeaf_eq_solveSeq]
+  exact solve_program_refines_solveSeq E _ u [] (fun c hc => by simp at hc) st 1 inp
+
+/-- `solve` of a unit whose sub-units are leaves - every call of `solve`, `init_solve`, `_solve_subunits` and of the two
+walks running the generated programs - is the model's `solveSeq` -/
+theorem seq_program_refines_solveSeq (E : Env) (st : RState) (s : Nat) (subs : List Nat) (iters inp : Nat) :
+    runSeq srcProgs E st s subs iters inp = some (solveSeq E st s subs iters inp) :=
+  solve_program_refines_solveSeq E _ s subs (fun c _ st x => leaf_program_refines_solveLeaf E st c x) st iters inp
+
+example : (runLeaf srcProgs exE exSt 0 0).map (·.2.2) = some (solveLeaf exE exSt 0 0).2.2 := by decide
+example : (runSeq srcProgs exE exSt 2 [0, 1] 2 0).map (fun r => consults r.2.2) =
+    some [10, 11, 12, 13,  10, 11, 12, 16, 13, 14, 15,  10, 11, 12, 16, 14,
+     10, 11, 12, 16, 13, 14, 15,  10, 11, 12, 16, 14,  14, 15] := by decide
+/-- post-processors applied to `self.out_profile` instead of the fresh returned profile (the copy made at `return`),
+and sub-units that are handed their predecessor's `out_profile` instead of what its `solve` returned: neither
+program refines the model -/
+example : (runLeaf { srcProgs with solve := [.initSolve .arg, .iterLoop Gen.C18.solution_loop, .bind .loc .selfOut,
+      .loop Gen.C18.post_loop, .retCopy .loc] } exE exSt 0 0).map (·.2.2) ≠ some (solveLeaf exE exSt 0 0).2.2 := by
+  decide
+example : (runSeq { srcProgs with subs := { Gen.C18.solve_subunits with
+      body := [.solveMember false .last, .bind .memberOut] } } exE exSt 2 [0, 1] 1 0).map (·.2.2) ≠
+    some (solveSeq exE exSt 2 [0, 1] 1 0).2.2 := by decide
+
+/-- hence `pre_before_own_before_post` speaks about the source: running the source's `solve` on a unit without
+sub-units gives the trace  enter · pre-chain · own solution · post-chain · leave,  the chains consulting exactly what
+the source's walks yield, both threading the profile -/
+theorem source_pre_before_own_before_post (E : Env) (st : RState) (u inp : Nat) :
+    ∃ r pre post lv, runLeaf srcProgs E st u inp = some r ∧
+      r.2.2 = .enter u inp :: pre ++ .own u :: (post ++ [lv]) ∧
+      (∀ e ∈ pre, e.phase = some true) ∧ (∀ e ∈ post, e.phase = some false) ∧ lv.phase = none ∧
+      some (consults pre) = srcProgs.walk E.H true (E.ucls u) ∧
+      some (consults post) = srcProgs.walk E.H false (E.ucls u) ∧
+      threads inp pre ∧ threads (initSolve E st u inp).1.heap.n post ∧
+      r.2.1 = lastRet (initSolve E st u inp).1.heap.n post := by
+  obtain ⟨pre, post, lv, h1, h2, h3, h4, h5, h6, h7, h8, h9⟩ := pre_before_own_before_post E st u inp
+  refine ⟨_, pre, post, lv, leaf_program_refines_solveLeaf E st u inp, h1, h2, h3, h4, ?_, ?_, h7, h8, h9⟩
+  · rw [walk_program_refines_walk, h5]
+  · rw [walk_program_refines_walk, h6]
+
+/-- … and `sequence_consults_own_classes`: whatever the source's `solve` of a sequence consults, for itself or for a
+member, is yielded by the walk of THAT unit's class -/
+theorem source_sequence_consults_own_classes (E : Env) (st : RState) (s : Nat) (subs : List Nat) (iters inp : Nat) :
+    ∃ r, runSeq srcProgs E st s subs iters inp = some r ∧ ConsultsOwnClass E r.2.2 :=
+  ⟨_, seq_program_refines_solveSeq E st s subs iters inp, sequence_consults_own_classes E st s subs iters inp⟩
+
+/-! ### the library (pinned) -/
+
+/-- what the translator found in pyroll/core besides `Unit`'s own methods, compared with what the model assumes:
+no unit class overrides a walk, `solve`, `_solve_subunits`, `__init_subclass__` or the list attributes; the two
+`init_solve` overrides call `super().init_solve(in_profile)` first and then only set an attribute of the own
+`out_profile` / create the disk elements; the only other statement that touches the lists is the registration of
+`rotator_factory` as pre-processor on `BaseRollPass` by `append`; a new unit has neither `in_profile` nor
+`out_profile`; and the class table + registration `libOps` (sections 8, 9) is what the `class` statements of the
+library give (C3 computed by the translator, compared with the real `__mro__` by the harness on every run) -/
+theorem library_as_modelled :
+    Gen.C18.overrides = [("BaseRollPass", "init_solve"), ("DiskElementUnit", "init_solve")] ∧
+    Gen.C18.initSolveOverrides =
+      [("BaseRollPass",
+        ["(self, in_profile)",
+         "super().init_solve(in_profile)",
+         "self.out_profile.cross_section = self.usable_cross_section"]),
+       ("DiskElementUnit",
+        ["(self, in_profile)",
+         "super().init_solve(in_profile)",
+         "if not self._subunits:",
+         "    self._subunits = self._SubUnitsList(self, [self.DiskElement(self, v0) for v0 in range(self.disk_element_count)])"])] ∧
+    Gen.C18.mentions =
+      [("pyroll/core/roll_pass/base.py", "BaseRollPass.pre_processors.append(rotator_factory)")] ∧
+    Gen.C18.libRegistrations = [("BaseRollPass", .pre, "append", "rotator_factory")] ∧
+    Gen.C18.unitInitState = [("in_profile", "None"), ("out_profile", "None")] ∧
+    libOps = opsOfLib Gen.C18.libClasses Gen.C18.libRegistrations := by
+  decide
+
+example : (run init (opsOfLib Gen.C18.libClasses Gen.C18.libRegistrations)).lists true 6 = some [900] := by decide
+
+end Source
 
 end Proc
